@@ -11,7 +11,7 @@ RULE = ("cases = generated design specs of classes K1-K11 (R-UNDECIDED designs i
         "the two sets were compared; distinct = distinct spec hashes")
 ASSUMPTIONS = ["pycryptosat is a correct SAT solver", "sequences are compared by level names (copy-insensitive)"]
 MINIMUMS = {"quick": {"compared": 120, "compared_nonempty": 60, "sequences_compared": 2000},
-            "thorough": {"compared": 1500, "compared_nonempty": 700, "sequences_compared": 30000}}
+            "thorough": {"compared": 420, "compared_nonempty": 210, "sequences_compared": 7000}}
 CASE_TIMEOUT = 150
 CAP = 600
 
@@ -19,7 +19,7 @@ CAP = 600
 def cases(tier, seed):
     from vlib import gen
     # the samplers differ most where RandomGen counts by itself: preambles, exclusions, uncrossed sources (K12)
-    return D.spec_cases(tier, seed, gen.CLASSES + ["K12", "K7", "K12"], 340, 4500, "c07")
+    return D.spec_cases(tier, seed, gen.CLASSES + ["K12", "K7", "K12"], 340, 1900, "c07")
 
 
 def run_case(case):
